@@ -20,7 +20,6 @@ An exception on an operation believed supported is judged differentially: the sa
 on a FRESH universe built from the mirrors; same exception class -> 'unsupported:<op>'
 (and the state must be unchanged), otherwise a violation.
 """
-import math
 import operator
 import warnings
 
@@ -66,10 +65,6 @@ OP_WEIGHT = {'new': 2, 'conv': 3, 'rows': 2, 'row': 4, 'get': 5, 'set': 8, 'bino
 WRITE_OPS = ('set', 'iop', 'clear', 'remove_negatives', 'mix_from', 'copy_like', 'from_flat')
 OPERAND_KINDS = ['scalar', 'bscalar', 'list1', 'nd1', 'nd0', 'list2', 'nd2', 'deep', 'ref', 'self']
 MAX_OBJS = 8
-
-# ------------------------------------------------------------------ known-finding regions
-# (filled in further below: REGIONS maps id -> predicate(world, ev, plan))
-
 
 def make_cfg(rng, prop, tier):
     lo, hi = tier.get('steps', (10, 30))
@@ -136,7 +131,7 @@ class Obj:
 class Plan:
     """What one event is expected to do (computed from the mirrors only)."""
     __slots__ = ('run', 'expect', 'why', 'ref', 'cmp', 'scale', 'writes', 'target', 'bind',
-                 'nonfinite', 'dtype_strict', 'mech', 'check', 'aliases_ok')
+                 'nonfinite', 'dtype_strict', 'mech', 'check')
 
     def __init__(self, run):
         self.run = run            # callable(universe: name -> real object) -> result
@@ -152,10 +147,6 @@ class Plan:
         self.dtype_strict = False
         self.mech = False
         self.check = None         # extra callable(result) -> error text or None
-
-
-class _NoRef:
-    pass
 
 
 def _is_sparse(x):
@@ -1623,6 +1614,9 @@ class SparseWorld(BaseWorld):
         tbool = self.is_bool(t)
         n = tshape[-1]
         m = tshape[0] if len(tshape) == 2 else r.randint(1, 3)
+        wide = n == 1 and not mismatch and r.random() < 0.5
+        if wide:
+            n = self.cfg['n']       # a length-1 target broadcasts against any length
         if opr in LOGICAL:
             boolean = True
         elif tbool:
@@ -1670,7 +1664,7 @@ class SparseWorld(BaseWorld):
         for k in sorted(self.objs):
             o = self.objs[k]
             sh = self.shape(o)
-            ok = sh[-1] in (n, 1)
+            ok = sh[-1] in (n, 1) or tshape[-1] == 1
             if len(sh) == 2 and len(tshape) == 2 and sh[0] not in (tshape[0], 1):
                 ok = False
             if mismatch:
@@ -1918,7 +1912,8 @@ class SparseWorld(BaseWorld):
         if others and r.random() < 0.5:
             others[r.randrange(len(others))] = t
             if r.random() < 0.5:
-                others.insert(r.randint(0, len(others)), r.choice(self._aliases_of(t) if False else [t]))
+                vec_aliases = [k for k in self._aliases_of(t) if self.objs[k].kind == 'v']
+                others.insert(r.randint(0, len(others)), r.choice(vec_aliases))
         return {'op': 'mix_from', 'target': t, 'others': others[:4]}
 
     def _c_copy_like(self, r, f7):
@@ -2236,7 +2231,20 @@ def _r_min_logical_bool(w, ev, plan):
     return ev.get('axis') == 1 or (ev.get('axis') is None and bool(ev.get('keepdims')))
 
 
+def _r_truediv_shares_dict(w, ev, plan):
+    # SparseVector._truediv_sparse, branch size == 1 < other.size with self == [0.]: `new = dct`,
+    # the result (size other.size) shares its dict with the length-1 operand
+    if ev.get('op') != 'binop' or ev.get('opr') != 'truediv' or ev.get('refl'):
+        return False
+    t = w.objs[ev['target']]
+    oc = w._operand_cells(ev['other'])
+    if not oc or w.is_bool(t) or w.shape(t)[-1] != 1 or len(w.cells[oc[0]]) < 2:
+        return False
+    return any(not w.cells[c][0] for c in t.cells)
+
+
 REGIONS.update({
+    'C09-truediv-shares-dict': _r_truediv_shares_dict,
     'C09-min-logical-bool': _r_min_logical_bool,
     'C09-logical-mask-order': _r_logical_mask_order,
     'C09-vector-iop-2d': _r_vector_iop_2d,
